@@ -328,6 +328,12 @@ def main(argv):
         for fid, det in unit_results[u].get('hint_failed', {}).items():
             if not any(k.startswith(fid + '/') for k in unit_results[u]['failed']):
                 hint_only[fid] = det
+    # A unit that Verus could not decide at all (a construct outside its subset appeared in one of its functions, a lost
+    # anchor): the bounded Kani harnesses paired with the unit's functions still decide whether the code is broken.
+    for u in vx_units:
+        if unit_results[u]['undecided'] and not unit_results[u]['failed']:
+            for fid in sorted(k for k in registry.VX_KX_PAIRS if k.startswith(u + '/')):
+                hint_only.setdefault(fid, ['Verus left unit %s undecided: %s' % (u, str(unit_results[u]['undecided'][-1])[:200])])
     for fid, det in sorted(hint_only.items()):
         pairs = registry.VX_KX_PAIRS.get(fid, [])
         if not pairs:
